@@ -63,7 +63,8 @@ def view(app):
 
 def rview(app):
     p = app.response
-    return (p.status_code, p.headers.get("X-Out"), p.status_line)
+    return (p.status_code, p.headers.get("X-Out"), p.status_line, sorted((k, str(v)) for k, v in p.headers.items()),
+            None if p._cookies is None else sorted(p._cookies))
 
 
 def text_ok(*vals):
@@ -75,8 +76,10 @@ def text_ok(*vals):
             assume(48 <= o <= 57 or 97 <= o <= 122)
 
 
-def build_A(foreign, obs, sA, hv, body="A-body"):
-    A = ombott.Ombott()
+def build_A(foreign, obs, sA, hv, body="A-body", app=None):
+    A = app or ombott.Ombott()
+    if app is not None:                      # the module-level default application: drop routes of earlier paths
+        A.router.__init__()
 
     @A.route("/a/:x")
     def hA(x):
@@ -135,6 +138,8 @@ def make(arrangement):
         sA = STATUS[si]
         envA = lambda: env_for("/a/" + pa, qa, ca, ha)
         envB = lambda: env_for("/b/" + pb, qb, "cb", "hb")
+        if arrangement.endswith("_json_error"):     # the foreign party produces a framework error page for a JSON client
+            envB = lambda: dict(env_for("/nope/" + pb, qb, "cb", "hb"), HTTP_ACCEPT="application/json")
         want_view = ("/a/" + pa, qa, "GET", ca or None, ha, "/a/" + pa)
         if arrangement == "threads":
             stubs.install_sim_threads()
@@ -145,7 +150,7 @@ def make(arrangement):
         obs = []
         foreign_result = []
 
-        if arrangement == "nested":
+        if arrangement in ("nested", "nested_json_error"):
             B = build_B()
             foreign = lambda A: foreign_result.append(call(B, envB()))
         elif arrangement == "default_app":
@@ -176,8 +181,8 @@ def make(arrangement):
                     foreign_result.append(call(A, env_for("/a/" + pb, qb, "cb", "hb"))[0][0][0][:3])   # same app, other thread
                 finally:
                     stubs.SimThreads.cur = "T0"
-        elif arrangement == "alternating":
-            foreign = lambda A: None
+        elif arrangement == "alternating" or arrangement.startswith("default_outer"):
+            foreign = lambda A: None         # (default_outer*: set below, the default application is the outer party)
         else:
             raise ValueError(arrangement)
 
@@ -193,21 +198,28 @@ def make(arrangement):
                 return "alternating A,B,A: B's response %r, alone %r" % (r2, refB)
             cover("ok")
             return None
-        A = build_A(foreign, obs, sA, hv)
+        outer = ombott.default_app() if arrangement.startswith("default_outer") else None
+        if outer is not None:
+            B = build_B()
+            foreign = lambda A: foreign_result.append(call(B, envB()))
+            refA = call(build_A(lambda A: None, [], sA, hv, app=outer), envA())
+        A = build_A(foreign, obs, sA, hv, app=outer)
         got = call(A, envA())
         r = check_obs(obs, want_view, (sA, hv))
         if r:
             return "%s: %s" % (arrangement, r)
         if got != refA:
             return "%s: A's response %r, A alone %r" % (arrangement, got, refA)
-        if arrangement in ("nested", "threads") and foreign_result[0] != refB:
+        if arrangement in ("nested", "threads", "nested_json_error", "default_outer", "default_outer_json_error") \
+                and foreign_result[0] != refB:
             return "%s: B's response %r, B alone %r" % (arrangement, foreign_result[0], refB)
         cover("ok")
         return None
     return q
 
 
-ARR = ["nested", "copy", "construct", "construct_request", "default_app", "alternating", "threads"]
+ARR = ["nested", "nested_json_error", "copy", "construct", "construct_request", "default_app", "default_outer",
+       "default_outer_json_error", "alternating", "threads"]
 
 
 def queries(tier):
